@@ -327,8 +327,8 @@ def early_exits(repo, col, prop):
             body = lp.body
             exits = []
             for i, st in enumerate(body):
-                if isinstance(st, (ast.For, ast.While)):
-                    continue  # an inner loop's break leaves the inner loop only
+                if isinstance(st, (ast.For, ast.While, ast.FunctionDef, ast.AsyncFunctionDef, ast.ClassDef)):
+                    continue  # an inner loop's break leaves the inner loop only; a local function's return leaves that function
                 for x in ([st] if isinstance(st, (ast.Break, ast.Return)) else list(_own(st))):
                     if isinstance(x, (ast.Break, ast.Return)):
                         exits.append((i, x))
@@ -751,6 +751,16 @@ def _selector_chain(t):
     return tuple(reversed(ch))
 
 
+def _own_no_defs(n):
+    todo = list(ast.iter_child_nodes(n))
+    while todo:
+        x = todo.pop()
+        if isinstance(x, (ast.FunctionDef, ast.AsyncFunctionDef, ast.ClassDef, ast.Lambda)):
+            continue
+        yield x
+        todo.extend(ast.iter_child_nodes(x))
+
+
 def empty_guards(repo, col, prop):
     """`if len(X) > 0: <use of the selection>`: the selection that is tested for emptiness is the one the guarded statements
     work on.  X = A[S...] is identified by its chain of row selectors (masks / index arrays): the same chain must occur in the
@@ -776,11 +786,15 @@ def empty_guards(repo, col, prop):
             # terms of the guarded statements: scatters / gathers
             body_terms = []
             for b in st.body:
-                for y in ast.walk(b):
+                if isinstance(b, (ast.FunctionDef, ast.AsyncFunctionDef, ast.ClassDef)):
+                    continue          # a local helper defined in the block: its body is seen where it is called (calls are inlined in the terms)
+                for y in [b] + list(_own_no_defs(b)):
                     if isinstance(y, ast.Subscript) and isinstance(y.ctx, ast.Load):
                         body_terms.append(ex.term(y))
                     elif isinstance(y, ast.Call) and isinstance(y.func, ast.Attribute) and y.func.attr in ("add", "set"):
                         body_terms += [ex.term(a_) for a_ in y.args]
+                    elif isinstance(y, ast.Call) and isinstance(y.func, ast.Name) and y.func.id in ex.nested:
+                        body_terms.append(ex.term(y))      # the inlined value of a local helper
             if not body_terms:
                 continue
             n += 1
